@@ -464,21 +464,41 @@ def _ancestors_of(spec: dict[str, dict[str, Any]], ref: str) -> set[str]:
 
 def monitor_dataflow(w: World, wf_spec: dict[str, dict[str, Any]]) -> tuple[str, Any] | None:
     """C16 at engine level, on the keys that are path-ordered by construction (``o_<ref>`` is
-    published by stage <ref> only): the context handed to a task holds, for every ancestor that has
-    published, the value of that ancestor's latest execution (the current loop iteration) and holds
-    no ``o_<ref>`` of a stage that is not an ancestor."""
+    published by stage <ref> only): the context handed to a task holds, for every ancestor that had
+    completed when the stage was started (a first-of / quorum join starts before all of them have),
+    the value of that ancestor's latest execution (the current loop iteration), and holds no
+    ``o_<ref>`` of a stage that is not an ancestor."""
     ents = w.ledger.entries
-    for i, e in enumerate(ents):
+    aud = w.audit()
+    ids = w.refs
+    starts: dict[str, list[int]] = {}
+    completions: dict[str, list[int]] = {}
+    for r in aud:
+        if r["tbl"] != "stage":
+            continue
+        if r["old"] == "NOT_STARTED" and r["new"] == "RUNNING":
+            starts.setdefault(r["id"], []).append(r["seq"])
+        if r["new"] in COMPLETE:
+            completions.setdefault(r["id"], []).append(r["seq"])
+    for e in ents:
         ref = e["ref"]
         anc = _ancestors_of(wf_spec, ref)
         ctx = e["ctx"]
         for k in ctx:
             if k.startswith("o_") and k[2:] != ref and k[2:] in wf_spec and k[2:] not in anc:
                 return ("sees_output_of_non_ancestor/%s<-%s" % (ref, k[2:]), {"stage": ref, "key": k, "ancestors": sorted(anc)})
+        my_starts = [s_ for s_ in starts.get(ids.get(ref, ""), []) if s_ <= e["audit_seq"]]
+        if not my_starts:
+            continue
+        start_seq = my_starts[-1]
         for r in anc:
+            done = [c for c in completions.get(ids.get(r, ""), []) if c < start_seq]
+            if not done:
+                continue  # had not completed when this stage was started
+            cseq = done[-1]
             last = None
-            for p in ents[:i]:
-                if p["ref"] == r and ("o_" + r) in (p.get("out") or {}):
+            for p in ents:
+                if p["ref"] == r and p["audit_seq"] < cseq and ("o_" + r) in (p.get("out") or {}):
                     last = p
             if last is None:
                 continue
